@@ -200,6 +200,7 @@ type ReqStep struct {
 	NewType string `json:"newtype,omitempty"` // for retype
 	Target  string `json:"target,omitempty"`  // tool / prompt name or resource uri addressed
 	Nonce   string `json:"nonce,omitempty"`
+	Sess    string `json:"sess,omitempty"` // stateful Streamable only: "" live session, "stale" a deleted session's id
 }
 
 // Template builds the valid request of a method. target is the tool / prompt / uri.
@@ -404,7 +405,7 @@ func GenID(t *rapid.T, label string) *OJ {
 	case 0:
 		return oStr("")
 	case 1:
-		return oStr(rapid.SampledFrom([]string{"1", "a", "id-é", "\"q\"", "0", "null", "💥", "a\nb"}).Draw(t, label+"s"))
+		return oStr(rapid.SampledFrom([]string{"1", "a", "id-é", "\"q\"", "0", "null", "💥", "a\nb", "job-100%", "%d%s%v%n", "a\\b", "\u2028", "<>&"}).Draw(t, label+"s"))
 	case 2:
 		return oInt(rapid.SampledFrom([]int64{0, -1, 1 << 31, 1<<53 - 1, 1 << 53, -(1 << 53), 1e15}).Draw(t, label+"big"))
 	case 3:
@@ -442,7 +443,7 @@ func GenStep(t *rapid.T, methods []string, reg RegSpec, idx int, mutateProb int)
 	method := rapid.SampledFrom(methods).Draw(t, "method")
 	id := GenID(t, "id")
 	target := targetFor(t, method, reg)
-	nonce := fmt.Sprintf("n%d-%d", idx, rapid.IntRange(0, 1<<20).Draw(t, "nonce"))
+	nonce := fmt.Sprintf("n%d-%d%s", idx, rapid.IntRange(0, 1<<20).Draw(t, "nonce"), rapid.SampledFrom([]string{"", "", "", "%", "%d%s", "\\", "\"", "\n", "\u2028é💥", "<&>"}).Draw(t, "noncesfx"))
 	tmpl := Template(method, id, target, nonce)
 	if rapid.IntRange(0, 99).Draw(t, "mutate?") >= mutateProb {
 		return MakeStep(method, tmpl, "none", nil, "", target, nonce)
